@@ -11,9 +11,9 @@ func init() {
 	register(&propDef{
 		ID: "C01",
 		Info: propInfo{
-			Technique: "who-may-call + path/typestate analysis over the type-checked AST (abstract interpretation with callee inlining)",
+			Technique:   "who-may-call + path/typestate analysis over the type-checked AST (abstract interpretation with callee inlining)",
 			Explanation: "Decides structural necessary conditions of exactly-once execution: (R01.1) items are dequeued only by the dispatcher step, which is called only from the one dispatcher goroutine spawned by start; (R01.2) every path of the step after a successful dequeue ends in an error return, the closed-skip, or exactly one hand-off of the dequeued job, and the closed test precedes the hand-off; the hand-off performs exactly one Node.Send; (R01.3) the worker function is invoked only in the completion callback, exactly once per payload, and Node.Serve calls its callback exactly once per payload; (R01.4) pool-node ownership typestate: Send/Stop/PushNode/Cache.Put only on a node the path owns (popped non-nil, Remove()==true, fresh, or the callback's own node), nothing after release; (R01.5) in every submit function the reject branch has no Submitted/notify, returns failure, closes the item in AddAll, and the accept branch returns the job that was enqueued.",
-			NotDecided: []string{"that the queue implementations neither lose nor duplicate items internally (C04 covers their discipline)", "the cancel/dispatch race (C10)", "user-supplied adapters", "sufficiency of the local rules as a protocol (needs a model)"},
+			NotDecided:  []string{"that the queue implementations neither lose nor duplicate items internally (C04 covers their discipline)", "the cancel/dispatch race (C10)", "user-supplied adapters", "sufficiency of the local rules as a protocol (needs a model)"},
 			Assumptions: []string{"the queue adapter's Dequeue removes the item it returns", "sync.Pool and channels behave as documented"},
 		},
 		Run: runC01,
